@@ -44,7 +44,7 @@ macro_rules! registries {
     };
 }
 registries! {
-    "r0" => reg_r0, "r1" => reg_r1, "r6" => reg_r6, "r8" => reg_r8, "r10" => reg_r10,
+    "r0" => reg_r0, "r1" => reg_r1, "r6" => reg_r6, "r8" => reg_r8, "r9" => reg_r9, "r10" => reg_r10,
     "p1" => reg_p1, "p6a" => reg_p6a, "p6b" => reg_p6b, "p6c" => reg_p6c, "p10" => reg_p10,
     "t6" => reg_t6, "t10" => reg_t10,
 }
@@ -61,7 +61,7 @@ fn main() {
             let out = arg(&args, "--out").expect("--out");
             let workers: usize = arg(&args, "--workers").and_then(|s| s.parse().ok()).unwrap_or(16);
             let cases: u32 = arg(&args, "--cases").and_then(|s| s.parse().ok()).unwrap_or(if thorough { 8000 } else { 300 });
-            let regs = arg(&args, "--regs").unwrap_or_else(|| if prop == "C09" { "p6a,p6b,p6c,p10,p1".into() } else if thorough { "r6,r10,r8,r1,r0,t6,t10".into() } else { "r6,r10,r8,r1,r0".into() });
+            let regs = arg(&args, "--regs").unwrap_or_else(|| if prop == "C09" { "p6a,p6b,p6c,p10,p1".into() } else if thorough { "r6,r10,r8,r9,r1,r0,t6,t10".into() } else { "r6,r10,r8,r9,r1,r0".into() });
             let excl_arg = arg(&args, "--exclude").unwrap_or_default();
             let mute = !args.iter().any(|a| a == "--no-mute");
             vcore::crash::install(&format!("{out}.crash.json"));
@@ -72,7 +72,7 @@ fn main() {
                 deser_leak_known: Vec::new(),
             };
             // share of the case budget per registry
-            let share: BTreeMap<&str, f64> = [("r6", 1.0), ("r10", 0.4), ("r8", 0.3), ("r1", 0.15), ("r0", 0.05), ("p6a", 0.4), ("p6b", 0.4), ("p6c", 0.4), ("p10", 0.3), ("p1", 0.1), ("t6", 0.5), ("t10", 0.3)].into_iter().collect();
+            let share: BTreeMap<&str, f64> = [("r6", 1.0), ("r10", 0.4), ("r8", 0.3), ("r9", 0.3), ("r1", 0.15), ("r0", 0.05), ("p6a", 0.4), ("p6b", 0.4), ("p6c", 0.4), ("p10", 0.3), ("p1", 0.1), ("t6", 0.5), ("t10", 0.3)].into_iter().collect();
             let mut reports = Vec::new();
             let t0 = std::time::Instant::now();
             let mut failure: Option<ReplayCase> = None;
@@ -146,11 +146,11 @@ fn main() {
             let out = arg(&args, "--out").expect("--out");
             let workers: usize = arg(&args, "--workers").and_then(|s| s.parse().ok()).unwrap_or(16);
             let cases: u32 = arg(&args, "--cases").and_then(|s| s.parse().ok()).unwrap_or(500);
-            let regs = arg(&args, "--regs").unwrap_or_else(|| "r6,r10,r8,r1".into());
+            let regs = arg(&args, "--regs").unwrap_or_else(|| "r6,r10,r8,r9,r1".into());
             let dprop = arg(&args, "--prop").unwrap_or_else(|| "C11".into());
             let leak_known: Vec<String> = arg(&args, "--known-leaks").map(|s| s.split('|').filter(|x| !x.is_empty()).map(|x| x.to_string()).collect()).unwrap_or_default();
             vcore::crash::install(&format!("{out}.crash.json"));
-            let share: BTreeMap<&str, f64> = [("r6", 1.0), ("r10", 0.5), ("r8", 0.4), ("r1", 0.1)].into_iter().collect();
+            let share: BTreeMap<&str, f64> = [("r6", 1.0), ("r10", 0.5), ("r8", 0.4), ("r9", 0.4), ("r1", 0.1)].into_iter().collect();
             let t0 = std::time::Instant::now();
             let mut reports = Vec::new();
             for reg in regs.split(',') {
